@@ -205,6 +205,7 @@ def geo_worlds(tier: str, seed: int, *, convs=W.ALL_CONVS, big: bool = True) -> 
                                   edges=(k % 2 == 0), centres=(k % 3 == 1)))
         # a uniform mesh (every face has the same number of nodes: no fill value anywhere), one-based, plain integers
         out.append(mesh_world(W.mesh_from_squares([["Q", "Q", "Q"], ["Q", "Q", "Q"]], shape="skew"), enc=dict(base=1, fill="none"), edges=True))
+        out[-1]["pin_via"] = "memory"        # as built in memory: the connectivity stays a plain integer array
         n_rand = 4 if quick else 25
         for k in range(n_rand):
             wd, h = (rng.randint(3, 6), rng.randint(3, 5)) if big else (rng.randint(2, 3), rng.randint(2, 3))
@@ -226,7 +227,7 @@ def geo_worlds(tier: str, seed: int, *, convs=W.ALL_CONVS, big: bool = True) -> 
     # the same worlds held in different ways (see viafile.hold): deterministic in the position
     vias = ["memory", "file", "memory", "dask", "memory", "emsopen", "memory"]
     for k, w in enumerate(out):
-        w["via"] = vias[k % len(vias)]
+        w["via"] = w.get("pin_via") or vias[k % len(vias)]
         if w["conv"] in ("cf1d", "cf2d", "shoc_simple") and "xb" in w["geom"] and k % 3 == 1:
             w["bounds_as_coords"] = True
     return out
